@@ -82,6 +82,51 @@ def _modname(rel: str) -> str:
     return ".".join(parts)
 
 
+def normalise_tree(tree: ast.AST) -> int:
+    """Canonical form for one refactoring that changes no behaviour: a value returned through a temporary
+    (`t = E; return t`, every read of t being such a return) is analysed as `return E`.  Locations of E are kept.
+    Returns the number of rewrites."""
+    n = 0
+    # `if not (c): A else: B` (plain else) is analysed as `if c: B else: A`
+    for x in ast.walk(tree):
+        if isinstance(x, ast.If) and isinstance(x.test, ast.UnaryOp) and isinstance(x.test.op, ast.Not) and x.orelse \
+                and not (len(x.orelse) == 1 and isinstance(x.orelse[0], ast.If)):
+            x.test = x.test.operand
+            x.body, x.orelse = x.orelse, x.body
+            n += 1
+    for fn in [x for x in ast.walk(tree) if isinstance(x, (ast.FunctionDef, ast.AsyncFunctionDef))]:
+        loads: Dict[str, int] = {}
+        for y in ast.walk(fn):
+            if isinstance(y, ast.Name) and isinstance(y.ctx, ast.Load):
+                loads[y.id] = loads.get(y.id, 0) + 1
+        pairs: Dict[str, List[Tuple[list, int]]] = {}
+        for holder in ast.walk(fn):
+            for field in ("body", "orelse", "finalbody"):
+                blk = getattr(holder, field, None)
+                if not isinstance(blk, list):
+                    continue
+                for i in range(len(blk) - 1):
+                    a, r = blk[i], blk[i + 1]
+                    if isinstance(a, ast.Assign) and len(a.targets) == 1 and isinstance(a.targets[0], ast.Name) and isinstance(r, ast.Return) \
+                            and isinstance(r.value, ast.Name) and r.value.id == a.targets[0].id and not isinstance(a.value, (ast.Yield, ast.YieldFrom, ast.Await)) \
+                            and not any(isinstance(z, ast.Name) and z.id == r.value.id for z in ast.walk(a.value)):
+                        pairs.setdefault(r.value.id, []).append((blk, i))
+        for name, ps in pairs.items():
+            if loads.get(name, 0) != len(ps):
+                continue  # the temporary is read somewhere else too
+            for blk, i in sorted(ps, key=lambda t: -t[1]):
+                # indices may have shifted inside the same block: locate the pair again
+                for j in range(len(blk) - 1):
+                    a, r = blk[j], blk[j + 1]
+                    if isinstance(a, ast.Assign) and isinstance(r, ast.Return) and isinstance(r.value, ast.Name) and r.value.id == name and len(a.targets) == 1 \
+                            and isinstance(a.targets[0], ast.Name) and a.targets[0].id == name:
+                        r.value = a.value
+                        del blk[j]
+                        n += 1
+                        break
+    return n
+
+
 class Program:
     def __init__(self, repo: str = REPO, roots: Iterable[str] = SOURCE_ROOTS):
         self.repo = repo
@@ -118,6 +163,7 @@ class Program:
             q.funcs.pop(f.qual, None)
         try:
             tree = ast.parse(new_src, filename=rel)
+            normalise_tree(tree)
         except SyntaxError as e:
             raise AnalysisError(f"override of {rel} does not parse: {e}")
         m = Module(name=name, path=old.path, rel=rel, src=new_src, tree=tree)
@@ -132,6 +178,7 @@ class Program:
             with open(path, "r", encoding="utf-8") as f:
                 src = f.read()
             tree = ast.parse(src, filename=rel)
+            normalise_tree(tree)
         except (SyntaxError, UnicodeDecodeError, OSError) as e:
             # A file that does not parse would not import either: the tree no
             # longer "compiles", which is outside the contract; fail closed.
